@@ -5,11 +5,13 @@
 //!          patience=<n|-> ord=0|1 rng=<u64> steps=<n> arm=default|generic|sse2|avx2 wrap=<rows>
 //!          seqs=<text,text,...>
 //! `sampler run` reads input lines on stdin and prints them followed by
-//!     ` => K=<k>|cnt=<c0,..,cK-1/...>|sym=<i,i,../...>|rerun=<same|diffN>|<record>|<record>...`
+//!     ` => K=<k>|cnt=<c0,..,cK-1/...>|sym=<i,i,../...>|rerun=<same|diffN>|wts=<ok|badSTEP:..>|<record>|<record>...`
 //! where
 //!   cnt   = `SymbolCount::count_symbols` of every striped sequence (what `SamplerData::new` caches),
 //!   sym   = the symbol indices read back through `StripedSequence::index` (0..len),
 //!   rerun = `same` when a second run of the same configuration printed the same trace,
+//!   wts   = `ok` when, at every step, scoring the hold-out with the iteration's PSSM yields exactly
+//!           len - width + 1 scores through `StripedScores::iter` (what `update_holdout` turns into weights),
 //!   record = `I;<state>`               after construction
 //!          | `S;z;step;itn;itcounts;<state>`  after every `next()` that returned `Some`
 //!          | `E`                       `next()` returned `None` (converged)
@@ -70,7 +72,7 @@ fn opt(f: &HashMap<String, String>, k: &str) -> Option<usize> {
 macro_rules! impl_run {
     ($name:ident, $abc:ty) => {
         /// One complete run of a configuration: preliminary observations and the trace.
-        fn $name(f: &HashMap<String, String>) -> (String, Vec<String>) {
+        fn $name(f: &HashMap<String, String>) -> (String, Vec<String>, String) {
             type A = $abc;
             let width: usize = f["w"].parse().unwrap();
             let wrap: usize = f["wrap"].parse().unwrap();
@@ -126,7 +128,7 @@ macro_rules! impl_run {
                 Some(x) => x,
                 None => {
                     lightmotif::pli::verif::force_backend(None);
-                    return ("cnt=P|sym=P".to_string(), vec!["P".to_string()]);
+                    return ("cnt=P|sym=P".to_string(), vec!["P".to_string()], "ok".to_string());
                 }
             };
             let pre = format!(
@@ -134,8 +136,11 @@ macro_rules! impl_run {
                 if cnt.is_empty() { "-" } else { &cnt },
                 if sym.is_empty() { "-" } else { &sym }
             );
+            let copies = striped.clone();
             let data = SamplerData::new(striped);
             let mut trace: Vec<String> = vec![];
+            // the weights of update_holdout: one per valid start position of the hold-out
+            let mut wts = "ok".to_string();
 
             fn state<R: rand::Rng>(s: &Sampler<'_, R, A, Vec<StripedSequence<A>>>) -> String {
                 let cm = no_panic(|| s.count_matrix());
@@ -195,7 +200,7 @@ macro_rules! impl_run {
                 Some(s) => s,
                 None => {
                     lightmotif::pli::verif::force_backend(None);
-                    return (pre, vec!["P".to_string()]);
+                    return (pre, vec!["P".to_string()], wts);
                 }
             };
             trace.push(format!("I;{}", state(&s)));
@@ -210,6 +215,20 @@ macro_rules! impl_run {
                         break;
                     }
                     Some(Some(it)) => {
+                        if wts == "ok" && it.z < copies.len() {
+                            // what update_holdout iterates over: the scores of the hold-out under the
+                            // iteration's PSSM (same dispatcher arm), bounded by max_index
+                            let seq = &copies[it.z];
+                            let expected = (seq.len() + 1).saturating_sub(width);
+                            match no_panic(|| {
+                                let sc = it.pssm.score(seq);
+                                (sc.iter().count(), sc.max_index())
+                            }) {
+                                Some((n, m)) if n == expected && m == expected => {}
+                                Some((n, m)) => wts = format!("bad{}:{}:{}/{}", it.step, n, m, expected),
+                                None => wts = format!("bad{}:P", it.step),
+                            }
+                        }
                         trace.push(format!(
                             "S;{};{};{};{};{}",
                             it.z,
@@ -222,7 +241,7 @@ macro_rules! impl_run {
                 }
             }
             lightmotif::pli::verif::force_backend(None);
-            (pre, trace)
+            (pre, trace, wts)
         }
     };
 }
@@ -238,15 +257,46 @@ fn run_case(f: &HashMap<String, String>) -> String {
             (<Dna as Alphabet>::as_str().len(), run_dna(f))
         }
     };
-    let (k, (pre1, t1)) = go(f);
-    let (_, (pre2, t2)) = go(f);
+    let (k, (pre1, t1, wts)) = go(f);
+    let (_, (pre2, t2, _)) = go(f);
     let rerun = if pre1 == pre2 && t1 == t2 {
         "same".to_string()
     } else {
         let d = t1.iter().zip(t2.iter()).position(|(a, b)| a != b).unwrap_or(t1.len().min(t2.len()));
         format!("diff{}", d)
     };
-    format!("K={}|{}|rerun={}|{}", k, pre1, rerun, t1.join("|"))
+    format!("K={}|{}|rerun={}|wts={}|{}", k, pre1, rerun, wts, t1.join("|"))
+}
+
+/// What happened in a run: calls of next() that changed a start / enlarged the active set / total.
+fn annotate(f: &HashMap<String, String>) -> String {
+    let (_pre, trace, _wts) = if f["abc"] == "protein" { run_protein(f) } else { run_dna(f) };
+    let mut moved = 0usize;
+    let mut recruited = 0usize;
+    let mut calls = 0usize;
+    let mut prev: Option<(String, String)> = None; // (active, starts)
+    for r in &trace {
+        let p: Vec<&str> = r.split(';').collect();
+        let cur = match p[0] {
+            "I" if p.len() == 7 => (p[4].to_string(), p[6].to_string()),
+            "S" if p.len() == 11 => (p[8].to_string(), p[10].to_string()),
+            _ => continue,
+        };
+        if p[0] == "S" {
+            calls += 1;
+            if let Some((pa, ps)) = &prev {
+                if *ps != cur.1 {
+                    moved += 1;
+                }
+                let old: Vec<&str> = pa.split(',').collect();
+                if cur.0 != "-" && cur.0.split(',').any(|i| !old.contains(&i)) {
+                    recruited += 1;
+                }
+            }
+        }
+        prev = Some(cur);
+    }
+    format!("{}:{}:{}", moved, recruited, calls)
 }
 
 // ------------------------------------------------------------------ generator
@@ -338,7 +388,14 @@ fn gen_case(rng: &mut Rng, id: usize, tier: &str) -> String {
     let (seeds, inertia, patience, ord) = if zoops {
         let seeds = if rng.chance(1, 10) { n + rng.below(3) as usize } else { 2 + rng.below((n - 1) as u64) as usize };
         let inertia = if rng.chance(1, 8) { "-".to_string() } else { rng.below(12).to_string() };
-        let patience = if rng.chance(1, 6) { "-".to_string() } else { rng.below(25).to_string() };
+        // small patience: convergence after a few fruitless trials; large: the run goes on recruiting
+        let patience = if rng.chance(1, 6) {
+            "-".to_string()
+        } else if rng.chance(2, 5) {
+            rng.below(25).to_string()
+        } else {
+            (200 + rng.below(1000)).to_string()
+        };
         (seeds.to_string(), inertia, patience, rng.below(2))
     } else if api == "builder" && rng.chance(1, 3) {
         // parameters that oops must ignore
@@ -346,7 +403,8 @@ fn gen_case(rng: &mut Rng, id: usize, tier: &str) -> String {
     } else {
         ("-".to_string(), "-".to_string(), "-".to_string(), 0)
     };
-    let steps = if tier == "thorough" { 300 + rng.below(201) } else { 50 + rng.below(251) };
+    // at least 300 calls of next() in every tier (hundreds of include / exclude updates)
+    let steps = if tier == "thorough" { 300 + rng.below(301) } else { 300 + rng.below(101) };
     let arm = match rng.below(10) {
         0 => "generic",
         1 => "sse2",
@@ -377,9 +435,16 @@ fn main() {
     let args = parse_args();
     match args.cmd.as_str() {
         "gen" => {
+            // every generated case is run once here to annotate it with what happened
+            // (nt=<calls that moved a start>:<calls that recruited a sequence>:<calls>); the
+            // annotation is only used to count non-trivial cases, `run` ignores it
+            silence_panics();
             let mut rng = Rng::new(args.seed);
             for id in 0..args.n {
-                println!("{}", gen_case(&mut rng, id, &args.tier));
+                let line = gen_case(&mut rng, id, &args.tier);
+                let (_id, f) = fields(&line);
+                let nt = no_panic(|| annotate(&f)).unwrap_or_else(|| "P".to_string());
+                println!("{} nt={}", line, nt);
             }
         }
         "run" => {
